@@ -102,8 +102,25 @@ def r2(ctx, F):
 def r3(ctx, F):
     ep = F.one(r"evaluator::Evaluator::<'v, 'a, 'e>::enable_profile$")
     m = match_arms(F, ep, r"eval::runtime::profile::mode::ProfileMode$|ProfileMode$")
-    writes = [s for s in ep.stmts if s.lhs.endswith("{eval::runtime::evaluator::Evaluator::disable_gc}")
-              and s.bb not in ep.cleanup]
+    FIELD = "{eval::runtime::evaluator::Evaluator::disable_gc}"
+
+    class _W:  # a block in which disable_gc is set to true (directly, or by a helper that always does so)
+        def __init__(s_, bb, txt):
+            s_.bb = bb
+            s_._t = txt
+
+        def text(s_):
+            return s_._t
+    writes = [_W(s_.bb, s_.text()) for s_ in ep.stmts if s_.lhs.endswith(FIELD) and s_.bb not in ep.cleanup]
+    for c in ep.calls:
+        if c.indirect or c.bb in ep.cleanup:
+            continue
+        g = F.fns.get(c.callee_uid())
+        if g is None or g.crate != "starlark":
+            continue
+        ws = [s_ for s_ in g.stmts if s_.lhs.endswith(FIELD) and s_.bb not in g.cleanup and "0x01" in s_.text()]
+        if ws and g.must_pass_from_entry([w.bb for w in ws], g.returns()):
+            writes.append(_W(c.bb, "const 0x01 (via %s)" % g.name))
     if not m or not writes:
         ctx.bad("C18.R3", "enable_profile:anchor", "anchor-missing: match on ProfileMode / write of disable_gc", fn=ep)
         return
